@@ -4,6 +4,8 @@ cd "$(dirname "$0")/.."
 for d in seeded/*/; do
   name=$(basename $d)
   prop=$(python3 -c "import json;print(json.load(open('$d/meta.json'))['breaks_property'])")
+  status=$(python3 -c "import json;print(json.load(open('$d/meta.json')).get('status',''))")
+  if [ "$status" = "equivalent-after-fix" ]; then echo "$name ($prop): skipped (behaviour-preserving since the fix it led to)"; continue; fi
   scratch=$(mktemp -d /tmp/seeded-repo.XXXXXX)
   cp -r /repo/tdda $scratch/ && (cd $scratch && patch -p1 -s < /verif/$d/patch.diff) || { echo "$name: PATCH FAILED"; rm -rf $scratch; continue; }
   out=$(VERIF_REPO=$scratch ./check $prop 2>&1 | grep -E "^VIOLATION" | head -3 | sed 's/.*obligation=//' | tr '\n' ';')
